@@ -60,7 +60,7 @@ CLAIMS = {
         ref='DESIGN.md section 8 C14'),
     'C15': dict(
         text='Bounded symbolic model checking of the MDD manager: the real MDD.find_or_add, _top_cofactor, ite (unstubbed), apply, collect_garbage, incref/decref, _allocate/_release from an arbitrary valid MDD state over two integer variables (arities 2-3), node contents, counts, ledger and a computed-table entry symbolic; pointwise connectives on <= 9 integer assignments as bit-vectors; MDD canonicity lemma.',
-        note='Claimed for the MDD manager steps only (small bounds, node numbers concrete, operand references enumerated by the dict lookups of the real code). bdd_to_mdd is NOT covered: see DESIGN.md section 10 (its reorder/cofactor/zone logic concretises the whole BDD; only enumeration would remain).',
+        note='MDD manager steps: small bounds, node numbers concrete, operand references enumerated by the dict lookups of the real code. bdd_to_mdd (harness mdd_conv): the real conversion (real collect_garbage, reorder/swap, cofactor, MDD.find_or_add) on a symbolic BDD manager with an arbitrary ledger, every partition of 2-3 bits into integer variables; node numbers that index Python containers are fixed by the solver where used; the MDD built per path is compared by the solver with the ghost denotation of the BDD nodes (N=3 L=2, N=2 L=3 quick; N=3 L=3 thorough).',
         ref='DESIGN.md section 8 C15'),
     'C16': dict(
         text='Bounded symbolic model checking of dddmp.load: real header parse of concrete header variants (varinfo 0/1/3, gaps, orderedvarnames), then the real _add_node/load/find_or_add on symbolic node rows (any numbering with children before parents, symbolic children, complement marks, 1-2 roots); z3 proves every element of roots denotes the file\'s root entry by name.',
@@ -91,7 +91,7 @@ CLAIMS = {
         ref='DESIGN.md section 8 C09'),
     'C12': dict(
         text='Bounded symbolic model checking of pickle dump/load logic (roots as list/dict/None, fresh or pre-declared receiving manager in the same or another order, levels true/false) and of the whole-manager pickle: loaded roots denote the dumped functions by name, receiving manager canonical with exact counts.',
-        note='open/pickle replaced by an in-memory hand-over (on-disk byte format is outside the claim); replays use real files and real pickle. JSON format: see not-applicable note in DESIGN.md (formatting concretises everything).',
+        note='open/pickle replaced by an in-memory hand-over (on-disk byte format is outside the claim); replays use real files and real pickle. JSON (dd._copy.dump_json/load_json through dd.autoref): the real code with open/shelve replaced in memory; every number that reaches the JSON text is fixed by the solver where it is formatted (fresh, other-order and same-manager receiving managers).',
         ref='DESIGN.md section 8 C12'),
     'C10': dict(
         text='Bounded symbolic model checking of support/is_essential/count/pick_iter/pick (no stubs, read-only) against bit-vector dependence, popcount and cube-cover oracles for every valid manager and operand within the bounds.',
